@@ -9,6 +9,13 @@ inductive Fmt where
   | json | color | logfmt
   deriving Repr, DecidableEq, BEq
 
+@[simp] theorem Fmt.beq_json_json : (Fmt.json == Fmt.json) = true := by decide
+@[simp] theorem Fmt.beq_logfmt_json : (Fmt.logfmt == Fmt.json) = false := by decide
+@[simp] theorem Fmt.beq_color_json : (Fmt.color == Fmt.json) = false := by decide
+@[simp] theorem Fmt.bne_json_color : (Fmt.json != Fmt.color) = true := by decide
+@[simp] theorem Fmt.bne_logfmt_color : (Fmt.logfmt != Fmt.color) = true := by decide
+@[simp] theorem Fmt.bne_color_color : (Fmt.color != Fmt.color) = false := by decide
+
 /-- The two mode bits of a logger: (useJSON, useColor). -/
 abbrev ModeBits := Bool × Bool
 
